@@ -184,7 +184,7 @@ pub fn run(args: &Args) -> i32 {
             }
         }
     }
-    let extra = args.vol(40, 600);
+    let extra = args.vol(150, 3000);
     let mut r = Rng::for_case(args.seed, 19, 0);
     for _ in 0..extra {
         let size = r.size(0, 600_000);
